@@ -455,6 +455,12 @@ struct Hist {
     void op() {
         std::vector<int> out = c.outstanding();
         unsigned w = r.below(100);
+        if (out.empty() && !c.lk.empty() && r.chance(1, 4)) {   // nothing outstanding: the client must not react (udp: it is not even listening)
+            Lk &L = c.lk[r.below(c.lk.size())];
+            vh::counter("datagrams_sent_while_no_lookup_outstanding");
+            send(c15gen::make_reply(r, L.id, L.domain).b, int(r.below(c.nsrv)), "idle");
+            return;
+        }
         if (out.empty() || w < 22) {
             unsigned k = r.below(100);
             lookup(k < 70 ? R_NONE : k < 85 ? R_NEW_LOOKUP : R_CANCEL_OTHER);
@@ -508,8 +514,11 @@ struct Hist {
 void history_case(uint64_t, vh::Rng &r, bool udp) {
     Ctx c;
     c.rng = &r;
-    c.open(1 + int(r.below(3)));
+    if (udp) {   // queries left over from the previous case's client are not this case's
+        for (int i = 0; i < 3; ++i) { uint8_t b[64]; while (__real_recvfrom(g_net.fd[i], b, sizeof b, 0, nullptr, nullptr) > 0) {} }
+    }
     if (udp) { g_net.ctx = &c; g_net.sent = g_net.consumed = 0; g_net.have_client = false; g_net.pending = false; g_net.stuck_reported = false; }
+    c.open(1 + int(r.below(3)));
     Hist h(c, r, udp);
     unsigned nops = 12 + r.below(34);
     for (unsigned i = 0; i < nops; ++i) h.op();
